@@ -39,6 +39,8 @@ LONG = {
     'SharedReadOnly(sequential)': 'a single sequential call changed a user-supplied option struct / exec.Cmd',
     'NoBlocking': 'a call did not make progress before the deadline while only OTHER calls were parked',
     'NoDataRace': 'the Go race detector reported a data race inside the code under test',
+    'Crash': 'the process died inside the code under test while the scenario ran (Go runtime fatal error such as concurrent '
+             'map access, or a panic in a worker goroutine)',
 }
 
 # ------------------------------------------------------------------------------------------
@@ -201,8 +203,7 @@ HIST_RE = re.compile(r'"HIST",\s*"((?:[^"\\]|\\.)*)"', re.S)
 
 
 def histories(ctx, cfg, num, seed, depth=300):
-    simdir = ctx.path('sim-' + cfg, 'x')
-    r = vlib.tlc(ctx, 'Conc', cfg + '.cfg', workers=1, simulate='num=%d' % num, depth=depth, seed=seed, timeout=900, heap='2g')
+    r = run_tlc(ctx, 'Conc', cfg + '.cfg', workers=1, simulate='num=%d' % num, depth=depth, seed=seed, timeout=900, heap='2g')
     if r['errors'] or r['invariant_violations'] or not r['completed']:
         raise vlib.Infra('history generation (%s) failed:\n%s' % (cfg, r['out'][-2500:]))
     out = []
@@ -350,7 +351,7 @@ _run_n = [0]
 _run_lock = threading.Lock()
 
 
-def run_driver(ctx, exe, pool, scens, tag, deadline_ms=30000, procs_env=None, timeout=1500):
+def run_driver(ctx, exe, pool, scens, tag, deadline_ms=30000, procs_env=None, timeout=1500, _depth=0):
     """one process of the -race driver; returns its trace lines (dicts)"""
     with _run_lock:
         _run_n[0] += 1
@@ -367,13 +368,27 @@ def run_driver(ctx, exe, pool, scens, tag, deadline_ms=30000, procs_env=None, ti
                C13_DEADLINE_MS=str(deadline_ms), TMPDIR=tmp)
     if procs_env:
         env['GOMAXPROCS'] = str(procs_env)
-    r = vlib.run([exe, fin, fout], timeout=timeout, env=env, check=False)
-    if r.returncode != 0:
-        raise vlib.Infra('c13 driver failed (%d): %s' % (r.returncode, (r.stderr or r.stdout)[-2500:]))
-    lines = vlib.read_ndjson(fout)
+    try:
+        r = vlib.run([exe, fin, fout], timeout=timeout, env=env, check=False)
+    except Exception as e:     # subprocess.TimeoutExpired
+        raise vlib.Infra('c13 driver did not finish (%s): %s' % (tag, e))
+    lines = vlib.read_ndjson(fout) if os.path.exists(fout) else []
     ends = sum(1 for l in lines if l['ev'] == 'end')
-    if ends != len(scens):
-        raise vlib.Infra('c13 driver finished %d of %d scenarios' % (ends, len(scens)))
+    if r.returncode == 0 and ends == len(scens):
+        return lines
+    # the process died.  A Go runtime "fatal error" (concurrent map access) or a panic in a goroutine the driver
+    # cannot guard (Reader/Writer workers) inside the code under test is an observation about the scenario that
+    # was running (trace lines are written unbuffered); anything else is an infrastructure problem.
+    err = (r.stderr or '')[-6000:]
+    begun = [l['sc'] for l in lines if l['ev'] == 'begin']
+    died_in_cut = 'github.com/tdewolff/' in err and ('fatal error:' in err or 'panic:' in err)
+    if not died_in_cut or len(begun) != ends + 1 or _depth > 40:
+        raise vlib.Infra('c13 driver failed (%d) after %d of %d scenarios: %s' % (r.returncode, ends, len(scens), err[-2500:]))
+    sid = begun[-1]
+    lines.append(dict(ev='crash', sc=sid, g=0, k=0, sh='', key='', h='', err='', races=0, o1='', o2='', note=err))
+    rest = [sc for sc in scens if sc['id'] not in set(begun)]
+    if rest:
+        lines += run_driver(ctx, exe, pool, rest, tag, deadline_ms, procs_env, timeout, _depth + 1)
     return lines
 
 
@@ -388,12 +403,82 @@ def for_tlc(l):
                 races=l['races'], o1=_h(l['o1']), o2=_h(l['o2']), note='')
 
 
+_tlc_lock = threading.Lock()
+_tlc_ids = [0]
+
+
+def tlc_trace_one(ctx, lines, tag, timeout=1500):
+    """one TLC run of ConcTrace over `lines` (own uniquely named trace file); returns (accepted, rejects)"""
+    with _tlc_lock:
+        _tlc_ids[0] += 1
+        n = _tlc_ids[0]
+    p = ctx.path('tv13', '%s-%d.ndjson' % (tag, n))
+    vlib.write_ndjson(p, lines)
+    r = run_tlc(ctx, 'ConcTrace', 'ConcTrace.cfg', env={'TRACE': p}, heap='2g', timeout=timeout)
+    badl = [e for e in r['errors'] if 'REJECT' not in e]
+    if r['invariant_violations'] or badl or not r['completed']:
+        raise vlib.Infra('trace validation run failed (ConcTrace %s):\n%s' % (tag, r['out'][-3000:]))
+    if r['distinct'] != len(lines) + 1:
+        raise vlib.Infra('trace validation consumed %d of %d lines (ConcTrace %s)' % (r['distinct'] - 1, len(lines), tag))
+    rej = sorted(set((l - 1, why) for l, why in r['rejects']))
+    return len(lines) - len(set(i for i, _ in rej)), rej
+
+
+def run_tlc(ctx, module, cfg, workers=1, heap='3g', timeout=1800, env=None, simulate=None, seed=None, depth=None):
+    """vlib.tlc with a metadir name that is unique across threads (vlib's comes from an unsynchronised counter)"""
+    import shutil
+    import subprocess
+    import time
+    import uuid
+    d = vlib._speccopy(ctx)
+    meta = os.path.join(ctx.scratch, 'meta', '%s-%s' % (module, uuid.uuid4().hex))
+    os.makedirs(meta, exist_ok=True)
+    args = ['java', '-Xmx' + heap, '-Xss64m', '-XX:+UseParallelGC', '-XX:ParallelGCThreads=%d' % max(2, min(4, workers)),
+            '-cp', vlib.JARS, 'tlc2.TLC', '-workers', str(workers), '-metadir', meta, '-config', cfg]
+    if simulate:
+        args += ['-simulate', simulate]
+    if depth:
+        args += ['-depth', str(depth)]
+    if seed is not None:
+        args += ['-seed', str(seed)]
+    args += [module + '.tla']
+    e = dict(os.environ)
+    e.pop('JAVA_TOOL_OPTIONS', None)
+    if env:
+        e.update(env)
+    t0 = time.time()
+    try:
+        r = subprocess.run(args, cwd=d, env=e, capture_output=True, text=True, timeout=timeout)
+    except subprocess.TimeoutExpired:
+        raise vlib.Infra('TLC timeout (%ss) on %s/%s' % (timeout, module, cfg))
+    finally:
+        shutil.rmtree(meta, ignore_errors=True)
+    out = r.stdout + r.stderr
+    res = dict(out=out, rc=r.returncode, wall=time.time() - t0, generated=0, distinct=0, depth=0, rejects=[],
+               invariant_violations=[], errors=[])
+    m = re.findall(r'(\d[\d,]*) states generated, (\d[\d,]*) distinct states found', out)
+    if m:
+        res['generated'] = int(m[-1][0].replace(',', ''))
+        res['distinct'] = int(m[-1][1].replace(',', ''))
+    m = re.search(r'depth of the complete state graph search is (\d+)', out)
+    if m:
+        res['depth'] = int(m.group(1))
+    for m in re.finditer(r'<<\s*"REJECT",\s*(\d+),\s*"([^"]*)"\s*>>', out):
+        res['rejects'].append((int(m.group(1)), m.group(2)))
+    res['invariant_violations'] = re.findall(r'Invariant (\S+) is violated', out)
+    if 'Deadlock reached' in out:
+        res['invariant_violations'].append('deadlock')
+    res['errors'] = [l for l in out.splitlines() if l.startswith('Error:')]
+    res['completed'] = ('Model checking completed' in out) or ('Finished in' in out and simulate is not None)
+    return res
+
+
 def tv(ctx, base_lines, groups):
     """groups: list of lists of lines; each group is validated by one TLC run together with all base lines.
     returns (accepted_lines, {group_index: [(line_in_group, why)]})"""
     def one(gi):
         lines = [for_tlc(l) for l in base_lines + groups[gi]]
-        acc, rej = vlib.tlc_trace(ctx, 'ConcTrace', 'ConcTrace.cfg', lines, shards=1, timeout=1500)
+        acc, rej = tlc_trace_one(ctx, lines, 'g%d' % gi)
         return gi, acc, rej
     rejects, accepted = {}, 0
     with ThreadPoolExecutor(max_workers=max(1, min(vlib.JOBS, len(groups)))) as ex:
@@ -438,7 +523,7 @@ def describe(sc, lines, whys):
             a, b = l['o1'], l['o2']
             i = next((j for j in range(min(len(a), len(b))) if a[j] != b[j]), min(len(a), len(b)))
             parts.append('before ...%s  after ...%s' % (a[max(0, i - 60):i + 60], b[max(0, i - 60):i + 60]))
-        elif why == 'NoDataRace':
+        elif why in ('NoDataRace', 'Crash'):
             parts.append(l['note'][:1500])
         elif why == 'NoBlocking':
             parts.append('goroutine %s call %s: %s' % (l['g'], l['key'], l['note']))
@@ -472,7 +557,7 @@ def rerun_alone(ctx, exe, pool, sc, attempts, deadline_ms=90000):
         one = dict(sc, id='r%d' % a)
         scs = (base_scenarios([one], 'rb') if sc['kind'] not in ('cmdin', 'htmldep') else []) + [one]
         lines = run_driver(ctx, exe, pool, scs, 'rerun', deadline_ms=deadline_ms)
-        acc, rej = vlib.tlc_trace(ctx, 'ConcTrace', 'ConcTrace.cfg', [for_tlc(l) for l in lines], shards=1, timeout=900)
+        acc, rej = tlc_trace_one(ctx, [for_tlc(l) for l in lines], 'rerun', timeout=900)
         drift = [(i, w) for i, w in rej if w.startswith('DRIFT')]
         if drift:
             raise vlib.Infra('design model / driver drift on re-run of %s: %s %s' % (sc.get('id'), drift[:3], lines[drift[0][0]]))
@@ -512,7 +597,7 @@ def model_check(ctx):
     lock = threading.Lock()
 
     def run_pos(cfg):
-        r = vlib.tlc(ctx, 'Conc', cfg + '.cfg', workers=4 if not quick else 3, heap='4g', timeout=1500)
+        r = run_tlc(ctx, 'Conc', cfg + '.cfg', workers=4 if not quick else 3, heap='4g', timeout=1500)
         if r['invariant_violations'] or r['errors'] or not r['completed']:
             raise vlib.Infra('design-level model checking of Conc/%s did not pass:\n%s' % (cfg, r['out'][-3000:]))
         with lock:
@@ -521,7 +606,7 @@ def model_check(ctx):
 
     def run_neg(item):
         cfg, want = item
-        r = vlib.tlc(ctx, 'ConcNeg', cfg + '.cfg', workers=1, heap='1g', timeout=600)
+        r = run_tlc(ctx, 'ConcNeg', cfg + '.cfg', workers=1, heap='1g', timeout=600)
         if want not in r['invariant_violations']:
             raise vlib.Infra('negative control %s: TLC did not find the %s violation (the invariant lost its teeth):\n%s'
                              % (cfg, want, r['out'][-2000:]))
@@ -529,15 +614,17 @@ def model_check(ctx):
             info[cfg] = 'violation of %s found as required (%d states)' % (want, r['distinct'])
 
     def run_fixed(cfg):
-        r = vlib.tlc(ctx, 'ConcNeg', cfg + '.cfg', workers=1, heap='1g', timeout=600)
+        r = run_tlc(ctx, 'ConcNeg', cfg + '.cfg', workers=1, heap='1g', timeout=600)
         if r['invariant_violations'] or r['errors'] or not r['completed']:
             raise vlib.Infra('%s should pass:\n%s' % (cfg, r['out'][-2000:]))
         with lock:
             info[cfg] = 'passes (%d states)' % r['distinct']
 
-    with ThreadPoolExecutor(max_workers=max(1, vlib.JOBS // 3)) as ex:
-        futs = [ex.submit(run_pos, c) for c in pos] + [ex.submit(run_neg, i) for i in NEG] + \
-               [ex.submit(run_fixed, 'ConcNeg_cmdin_fixed')]
+    # quick tier: a seeded third of the negative controls (all of them in the thorough tier)
+    negs = list(NEG) if not quick else [NEG[(ctx.seed + 3 * i) % len(NEG)] for i in range(4)]
+    with ThreadPoolExecutor(max_workers=max(2, vlib.JOBS // 3)) as ex:
+        futs = [ex.submit(run_pos, c) for c in pos] + [ex.submit(run_neg, i) for i in negs] + \
+               ([ex.submit(run_fixed, 'ConcNeg_cmdin_fixed')] if not quick else [])
         for f in futs:
             f.result()
     return info
@@ -573,23 +660,31 @@ def run(ctx):
         _run(ctx, exe, quick, rnd, mc_info)
     finally:
         th.join()
+    _t(ctx, 'design model runs finished')
     if mc_err:
         raise mc_err[0]
     ctx.coverage['design_model_runs'] = mc_info
 
 
+def _t(ctx, what):
+    import time
+    vlib.log('C13 [%5.1fs] %s' % (time.time() - ctx.t0, what))
+
+
 def _run(ctx, exe, quick, rnd, mc_info):
+    _t(ctx, 'driver built')
     pool = Pool()
     nrepo = repo_docs(ctx, pool, 20 if quick else 120)
     optsets = [0, 1, 2]
 
     # ---- GEN: histories of the design model
-    nsim = (120, 120, 60) if quick else (1200, 1200, 500)
+    nsim = (100, 100, 50) if quick else (1200, 1200, 500)
     with ThreadPoolExecutor(max_workers=3) as ex:
         f1 = ex.submit(histories, ctx, 'Conc_gen', nsim[0], ctx.seed)
         f2 = ex.submit(histories, ctx, 'Conc_genlazy', nsim[1], ctx.seed + 1000)
         f3 = ex.submit(histories, ctx, 'Conc_gen4', nsim[2], ctx.seed + 2000)
         hists = f1.result() + f2.result() + f3.result()
+    _t(ctx, '%d histories generated by TLC' % len(hists))
     seen, scheds = set(), []
     for h in hists:
         key = json.dumps(h, sort_keys=True)
@@ -621,6 +716,7 @@ def _run(ctx, exe, quick, rnd, mc_info):
         futs = [ex.submit(run_driver, ctx, exe, pool, scs, tag, 30000, pe) for tag, scs, pe in jobs]
         results = [f.result() for f in futs]
     base_lines = results[0] + results[1]
+    _t(ctx, 'driver processes finished (%s)' % ', '.join('%s:%d lines' % (j[0], len(r)) for j, r in zip(jobs, results)))
     other = [l for r in results[2:] for l in r]
 
     # ---- pinned known findings (own process: their race reports must not touch the main runs)
@@ -628,6 +724,7 @@ def _run(ctx, exe, quick, rnd, mc_info):
     pin_lines = run_driver(ctx, exe, pool, pinned, 'pinned', 30000) if pinned else []
     for sc in pinned:
         by_id[sc['id']] = sc
+    pinned_ids = set(sc['id'] for sc in pinned)
 
     # ---- TV
     scen_lines = split_scenarios(other) + split_scenarios(pin_lines)
@@ -639,7 +736,9 @@ def _run(ctx, exe, quick, rnd, mc_info):
         for l in scen_lines[i][1]:
             gmap[gi].append(scen_lines[i][0])
             groups[gi].append(l)
+    _t(ctx, 'pinned scenarios run; validating %d groups' % ngroups)
     accepted, rejects = tv(ctx, base_lines, groups)
+    _t(ctx, 'trace validation finished: %d rejected lines' % sum(len(v) for v in rejects.values()))
 
     # ---- triage: every rejected scenario is re-run ALONE in a fresh process and re-validated
     bad = {}      # scenario id -> [(line dict, why)]
@@ -663,13 +762,19 @@ def _run(ctx, exe, quick, rnd, mc_info):
             if w == 'NoDataRace' and not race_in_code_under_test(l['note']):
                 raise vlib.Infra('race report without a frame of the code under test (driver bug?):\n' + l['note'][:3000])
         seqlike = sc['kind'] in ('base', 'seq', 'cmdin', 'htmldep') and not sc.get('conc')
-        lines2, rej2 = rerun_alone(ctx, exe, pool, sc, 1 if seqlike else 4)
+        if sid in pinned_ids:
+            # pinned witnesses already ran alone in a process of their own: that run is the isolated replay
+            lines2 = [l for l, _ in bad[sid]]
+            rej2 = [(i, w) for i, (_, w) in enumerate(bad[sid])]
+        else:
+            lines2, rej2 = rerun_alone(ctx, exe, pool, sc, 1 if seqlike else 4)
         if not rej2:
             unreproduced.append((sid, whys0))
             continue
         reproduced += 1
         verdict = ctx.report(identity(sc, pool), describe(sc, lines2, rej2), replay_obj(sc, pool))
         vlib.log('C13: scenario %s rejected (%s) and reproduced alone -> %s' % (sid, ','.join(whys0), verdict))
+    _t(ctx, 'triage finished')
     ctx.coverage['rejected_scenarios'] = len(bad)
     ctx.coverage['rejected_scenarios_reproduced'] = reproduced
     if unreproduced:
